@@ -19,6 +19,11 @@ var trUnits = []*trUnit{
 		"Date", "StartOf", "EndOf", "Period.Clip", "Period.Contains", "Partition.Contains", "NewPartition",
 		"Partition.Size", "Partition.StartDates", "Partition.EndDates", "Partition.Align",
 	}},
+	{pkg: "lib/common/compare", mod: "Compare", funcs: []string{"Time", "Decimal"}},
+	{pkg: "lib/model/commodity", mod: "Commodity", funcs: []string{"Commodity.Name", "Compare"}},
+	{pkg: "lib/model/price", mod: "Price", funcs: []string{
+		"Multiply", "newNormalizedPrices", "Prices.addPrice", "Prices.Insert", "NormalizedPrices.Price", "NormalizedPrices.Valuate",
+	}},
 }
 
 func (t *trTranslator) findFunc(p *trPkg, name string) *ast.FuncDecl {
@@ -236,6 +241,9 @@ func (t *trTranslator) translateFunc(f *trFunc) {
 		}
 	}
 	c.nresults = results.Len()
+	for i := 0; i < results.Len(); i++ {
+		c.resultTypes = append(c.resultTypes, results.At(i).Type())
+	}
 	// result type: the new values of the parameters assigned through, then the results
 	var rts []string
 	for _, m := range f.mutObjs {
